@@ -170,7 +170,7 @@ def _r2(run):
         if g is None:
             continue
         rr = sym.make_evaluator(project, IMG, []).run(g.node)
-        ok = len(rr.returns) == 1 and rr.returns[0][1] == ("sub", ("attr", ("sym", "self"), "shape"), num(0))
+        ok = len(rr.returns) == 1 and rr.returns[0][1] == ("item", ("attr", ("sym", "self"), "shape"), 0)
         if not ok:
             run.violated("C16.R2", g, None, "%s is %s, expected self.shape[0]" % (g.short, show(rr.returns[0][1])[:40] if rr.returns else "?"), kind="height")
     run.holds("C16.R2", project.fn(IMG + ".Image.height"), None, "height = shape[0] for both classes")
